@@ -337,6 +337,39 @@ def r6_reward_rounds_down(ctx):
         r.undecided("calculate_reward/rounding", "division in calculate_reward not recognised: %s" % (cs[0][:160] if cs else "no return"))
 
 
+MELPOW_READ = {
+    # version, checksum prefix -> what reading Proof::verify of that release showed
+    ("0.1.2", "250a855f9831fc11"): ("unsound", "melpow 0.1.2 `Proof::verify` reads `phi = self.0[zero]` and later tests `phi != self.0[zero]` — the commitment it recomputes from the opened "
+                                               "labels (temp_map) is never compared with the committed root, so labels only have to be locally consistent with the parents the prover "
+                                               "chose: a 'proof' for any difficulty ≤ 56 can be written down with a few hundred hashes and no sequential work"),
+}
+
+
+def r7_trusted_verifier(ctx):
+    """'ERG is minted only against valid sequential work' rests on melpow::Proof::verify, which is outside the repository.  What can be decided statically is WHICH verifier
+    the build is pinned to (Cargo.lock) and what reading that release showed; a release that was not read is undecided."""
+    r = ctx.rule("R7", "the MelPoW verifier the build is pinned to (Cargo.lock) is one whose Proof::verify was read and found to check the commitment", positional=False)
+    import os, re as _re
+    from rules.engine import facts as _facts
+    try:
+        txt = open(os.path.join(_facts.REPO, "Cargo.lock")).read()
+    except OSError:
+        r.undecided("verifier/pinned", "Cargo.lock not readable")
+        return
+    m = _re.search(r'name = "melpow"\nversion = "([^"]+)"\nsource = "[^"]*"\nchecksum = "([0-9a-f]+)"', txt)
+    if not m:
+        r.undecided("verifier/pinned", "melpow is not pinned by a registry checksum in Cargo.lock (path or git dependency): its verify was not read")
+        return
+    ver, ck = m.group(1), m.group(2)[:16]
+    got = MELPOW_READ.get((ver, ck))
+    if got is None:
+        r.undecided("verifier/pinned", "melpow %s (%s…) is not a release whose Proof::verify was read" % (ver, ck))
+    elif got[0] == "unsound":
+        r.violation("verifier/melpow-%s/commitment-unchecked" % ver, got[1])
+    else:
+        r.ok("verifier/pinned", "melpow %s: %s" % (ver, got[1]))
+
+
 def shared(ctx):
     from rules.engine import core
     from rules.props import c01
@@ -345,4 +378,4 @@ def shared(ctx):
     core.import_rules(ctx, [c03.r5_inflator], "X03")    # the reward cap uses the inflator of the state's own height: microergs_per_dosc(h) is the table entry at h
 
 
-RULES = [r1_gate_chain, r2_reward_bound, r3_speed_commitment, r5_speed_formula, r6_reward_rounds_down, shared]
+RULES = [r1_gate_chain, r2_reward_bound, r3_speed_commitment, r5_speed_formula, r6_reward_rounds_down, r7_trusted_verifier, shared]
